@@ -114,7 +114,9 @@ EXPORT errno_t _strcmp_s_chk(const char *dest, rsize_t dmax, const char *src,
             return RCNEGATE(ESUNTERM);
         }
     }
-    *resultp = *dest - *src;
+    /* compare as unsigned char, like strcmp; after dmax equal characters the
+       compared parts are equal */
+    *resultp = dmax ? (unsigned char)*dest - (unsigned char)*src : 0;
     return RCNEGATE(EOK);
 }
 #ifdef __KERNEL__
